@@ -55,7 +55,9 @@ func genAction(r *gen.R) string {
 	case k < 11:
 		return act("resource", e(r.Pick([]string{"x.y", "svc.a", "bad..rid", "a?q=1", "*", "", "?", "?limit=5", "a.b?", "a.>", "a b", "x.a\\b", "x.\"q\"", "x.y?q=\"1\"", "x.a\x7fb", "x.a~b", "x.a!b", "x.a\x1fb", "x.a\u00e9b"})))
 	case k < 16:
-		switch r.Intn(5) {
+		switch r.Intn(6) {
+		case 5:
+			return act("error", "N") // Error(nil): an error variable that was never set
 		case 0, 1:
 			return act("error", "R", e(r.Pick(reqCodes)), e(r.Pick(reqMsgs)))
 		case 2:
@@ -344,6 +346,8 @@ func runScript(r *res.Request, acts []string) {
 				r.Error(fmt.Errorf("wrap: %w", &res.Error{Code: dd(f[2]), Message: dd(f[3])}))
 			case "U":
 				r.Error(&res.Error{Code: "custom.code", Message: "Oops", Data: make(chan int)})
+			case "N":
+				r.Error(nil)
 			default:
 				r.Error(errors.New(dd(f[2])))
 			}
